@@ -371,3 +371,55 @@ Fixpoint run (P : list pkgid) (VN FN : list name) (s : state) (ops : list op) : 
   | [] => []
   | o :: ops' => let s' := step s o in observe P VN FN s' :: run P VN FN s' ops'
   end.
+
+(* ---- qualified writes: (setq p:n v) (setq p::n v) (defvar p:n v) (defvar p::n v), evaluated with any
+   current package (scope.go Scope.Set with UnpackName; pkg/cl/defvar.go; package.go Set / SetIfHas with the
+   variadic `privates` flag).  Added after seeded change C13-13 (the flag of Package.Set taken for true whenever
+   it is passed) was missed: no write through a qualified name was modelled or generated. ---- *)
+Inductive xop :=
+| XB (o : op)
+| XSetqQ (p : pkgid) (n : name) (v : Z) (priv : bool)      (* priv: two colons *)
+| XDefvarQ (p : pkgid) (n : name) (v : Z) (priv : bool).
+
+(* the body of an operation run with CurrentPackage = p, the current package restored afterwards *)
+Definition as_pkg (s : state) (p : pkgid) (o : op) : state := step (step (step s (OInPkg p)) o) (OInPkg (cur s)).
+
+(* Package.Set(name, value, private): SetIfHas tests `vv.Export || CurrentPackage == obj || private`; when the
+   test holds the assignment (value, sharing of an exported own variable with the users) is the one set_var
+   makes when obj is the current package; with the test false SetIfHas returns the VarVal untouched and Set
+   creates nothing; without an entry Set creates a private variable of obj *)
+Definition set_var_q (s : state) (obj : pkgid) (n : name) (v : Z) (priv : bool) : state :=
+  match vars s obj n with
+  | Some a => match vheap s a with
+              | Some vv => if vv_export vv || N.eqb (cur s) obj || priv then as_pkg s obj (OSetq n v) else s
+              | None => s end
+  | None => as_pkg s obj (OSetq n v)
+  end.
+(* Scope.Set on a qualified symbol: pkg.GetVarVal(name) != nil && (vv.Export || private), then pkg.Set with the
+   flag; otherwise nothing (no error, nothing created) *)
+Definition setq_q (s : state) (p : pkgid) (n : name) (v : Z) (priv : bool) : state :=
+  match vars s p n with
+  | Some a => match vheap s a with
+              | Some vv => if vv_export vv || priv then set_var_q s p n v priv else s
+              | None => s end
+  | None => s
+  end.
+(* defvar on a qualified symbol: pkg.Get(vname) (which knows nothing of the flag: it answers for an exported
+   variable or when pkg is the current package), a bound answer ends it; otherwise pkg.Set(vname, iv, private) *)
+Definition defvar_q (s : state) (p : pkgid) (n : name) (v : Z) (priv : bool) : state :=
+  match pkg_get s p n with
+  | Some (Some _) => s
+  | _ => set_var_q s p n v priv
+  end.
+
+Definition xstep (s : state) (o : xop) : state :=
+  match o with
+  | XB o => step s o
+  | XSetqQ p n v priv => setq_q s p n v priv
+  | XDefvarQ p n v priv => defvar_q s p n v priv
+  end.
+Fixpoint xrun (P : list pkgid) (VN FN : list name) (s : state) (ops : list xop) : list (list qres) :=
+  match ops with
+  | [] => []
+  | o :: ops' => let s' := xstep s o in observe P VN FN s' :: xrun P VN FN s' ops'
+  end.
